@@ -60,13 +60,6 @@ Proof. repeat split; vm_compute; reflexivity. Qed.
 From PG Require Import Proofs.Dispatch.
 
 (* the structure target is the declared type itself (not a sub-term cut out of the string) *)
-Definition deser_direct (reg : registry) (t : rty) : bool :=
-  match deser_code reg (show t) s_rj with
-  | Some c => str_eqb c (sfd s_rj (show t))
-              || match t with TOpt u => str_eqb c (sfd s_rj (show u) ++ s_if_not_none s_rj) | _ => false end
-  | None => false
-  end.
-
 Definition want_json (t : rty) : want := if needs_structure t then WJsonTyped t else WJsonRaw t.
 
 (* T1: the JSON decode decision.  If the string heuristic agrees with the type's need for structuring, the
@@ -195,10 +188,10 @@ Theorem secondary_never_text_or_bytes : forall reg o p n r m ct imported,
 Proof.
   intros reg o p n r m ct imported Hp Hns Hne Hf Hl Hc.
   rewrite (handle_secondary _ _ _ _ _ _ _ Hp Hne Hf Hl). unfold secondary_path, handler_schema. rewrite Hns.
-  destruct (find (fun e => str_eqb (c_media e) m_json) (cr_content r)) as [e|].
-  - unfold json_path. destruct (should_use_cattrs reg (show (c_type e))); [destruct (deser_code _ _ _)|]; split; reflexivity.
+  destruct (find (fun e => str_eqb (c_media e) m_json_handler) (cr_content r)) as [e|].
+  - unfold json_path. destruct (should_use_cattrs reg (show (c_type e))); [destruct (deser_code reg _ _)|]; split; reflexivity.
   - destruct (cr_content r) as [|e rest]; [congruence|]. cbn [hd_error].
-    unfold json_path. destruct (should_use_cattrs reg (show (c_type e))); [destruct (deser_code _ _ _)|]; split; reflexivity.
+    unfold json_path. destruct (should_use_cattrs reg (show (c_type e))); [destruct (deser_code reg _ _)|]; split; reflexivity.
 Qed.
 
 (* T7: streaming primaries *)
@@ -303,14 +296,26 @@ Qed.
 Definition class_entry_ok (reg : registry) (n : str) : bool :=
   match alookup n reg with
   | None => true
-  | Some i => negb (is_type_alias i && (opt_str_eqb (si_type i) s_array || opt_str_eqb (si_type i) s_string
-                     || opt_str_eqb (si_type i) s_integer || opt_str_eqb (si_type i) s_number
-                     || opt_str_eqb (si_type i) s_boolean))
+  | Some i => negb (is_type_alias i && (opt_str_eqb (si_type i) s_array
+                     || match si_type i with Some ty => mem_str ty alias_prim_types | None => false end))
   end.
 Definition class_name_ok (n : str) : bool :=
   ident_like n && first_upper n
   && negb (mem_str n builtin_names)
-  && negb (mem_str n [s_Dict; s_List; s_Union; s_Tuple; s_dict; s_list; s_tuple]).
+  && negb (mem_str n not_model_names_cattrs).
+
+Lemma starts_any_absent : forall ps s c, (forall p, In p ps -> In c p) -> ~ In c s -> starts_any ps s = false.
+Proof.
+  intros ps s c Hps Hn. unfold starts_any. induction ps as [|p ps IH]; [reflexivity|]. cbn [existsb].
+  rewrite (prefix_absent p s c); [|apply Hps; left; reflexivity | exact Hn]. apply IH. intros q Hq. apply Hps. right. exact Hq.
+Qed.
+(* every typing-construct prefix of the source table contains "[" (regenerated table, checked by computation) *)
+Lemma construct_prefixes_bracket : forall p, In p construct_prefixes -> In 91 p.
+Proof.
+  assert (H : forallb (fun p => existsb (N.eqb 91) p) construct_prefixes = true) by (vm_compute; reflexivity).
+  intros p Hp. rewrite forallb_forall in H. specialize (H p Hp). apply existsb_exists in H.
+  destruct H as (x & Hx & E). apply N.eqb_eq in E. subst x. exact Hx.
+Qed.
 
 Lemma cut_bracket_ident : forall n, ident_like n = true -> cut_bracket n = n.
 Proof.
@@ -330,23 +335,18 @@ Proof.
   assert (Nlb : ~ In 91 n) by (apply ident_no_char; auto).
   assert (Nsp : ~ In 32 n) by (apply ident_no_char; auto).
   assert (Nbar : ~ In 124 n) by (apply ident_no_char; auto).
-  assert (Ndot : ~ In 46 n) by (apply ident_no_char; auto).
   assert (Clb : contains_s s_lb n = false) by (apply (contains_absent _ _ 91); simpl; auto).
   assert (Hcut : cut_bracket n = n) by (apply cut_bracket_ident; exact Hid).
   assert (Hap : is_alias_to_primitive reg n = false /\ is_alias_to_array reg n = false).
   { unfold is_alias_to_primitive, is_alias_to_array. rewrite Hcut. unfold class_entry_ok in Hr.
     destruct (alookup n reg) as [i|]; [|split; reflexivity].
     apply negb_true_iff in Hr. destruct (is_type_alias i); [|split; reflexivity]. cbn [andb] in *.
-    apply orb_false_iff in Hr. destruct Hr as [Hr H5]. apply orb_false_iff in Hr. destruct Hr as [Hr H4].
-    apply orb_false_iff in Hr. destruct Hr as [Hr H3]. apply orb_false_iff in Hr. destruct Hr as [H1 H2].
-    rewrite H1, H2, H3, H4, H5. split; reflexivity. }
+    apply orb_false_iff in Hr. destruct Hr as [H1 H2]. rewrite H1, H2. split; reflexivity. }
   destruct Hap as [Hprim Harr].
   assert (Hpre : forall p, In 91 p -> prefixb p n = false) by (intros p Hp; apply (prefix_absent _ _ 91); auto).
   assert (Hsu : should_use_cattrs reg n = true).
   { unfold should_use_cattrs. rewrite Clb. cbn [andb]. rewrite Hb.
-    replace (starts_any construct_prefixes n) with false.
-    2:{ symmetry. unfold starts_any, construct_prefixes. cbn [existsb].
-        repeat (rewrite Hpre by (apply in_or_app; right; left; reflexivity)). reflexivity. }
+    rewrite (starts_any_absent construct_prefixes n 91 construct_prefixes_bracket Nlb).
     rewrite Hprim, Harr, Hup, Hl2. cbn [negb andb]. apply orb_true_r. }
   split.
   - unfold heuristic_ok. cbn [show needs_structure]. rewrite Hsu. reflexivity.
